@@ -259,6 +259,7 @@ impl Property for C16Prop {
             "append" => check_append(case, stats),
             "cross" => check_cross(case, stats),
             "isolated-code" => check_isolated_code(case, stats),
+            "isolated-import" => check_isolated_import(case, stats),
             "show" => check_show(case, stats),
             "shared-iterator" => check_shared_iterator(case, stats),
             _ => Verdict::Discard("unknown kind"),
@@ -414,6 +415,76 @@ pub(crate) fn isolated_code_programs() -> Vec<String> {
         out.push(format!("n := 4; {body} c += n; c += 1; *c"));
     }
     out
+}
+
+/// T embedders, each with an interpreter of its own holding a cell `hits` and a constant `base` of its
+/// own, import one and the same file (which refers to `hits` and `base` of whoever imports it) at once:
+/// each sees its own cell and its own constant
+fn check_isolated_import(case: &Json, stats: &mut Stats) -> Verdict {
+    let threads = case["threads"].as_u64().unwrap_or(6) as usize;
+    let reps = case["reps"].as_u64().unwrap_or(2) as usize;
+    let dir = std::env::temp_dir().join(format!("vcheck-imports-{}-c16", std::process::id()));
+    let _ = std::fs::create_dir_all(&dir);
+    let file = dir.join("helper");
+    if std::fs::write(&file, "bump := () -> int { hits += 1; return *hits; }; k := base + 1; double := (x: int) -> int { return x * 2 + base; };").is_err() {
+        return Verdict::Inconclusive("scratch file");
+    }
+    let program = format!("m := import \"{}\"; m.bump(); m.bump(); (*hits, m.k, m.double(4), m.bump())", file.display());
+    let run_one = |t: usize| -> Outcome {
+        run::default_budget();
+        let mut interp = run::interpreter(true);
+        let setup = format!("hits := mut 0; base := {};", t * 100);
+        match run::parse_guarded(&interp, &setup) {
+            Ok(Ok(code)) => {
+                let _ = run::exec_unscoped_guarded(&code, &mut interp);
+            }
+            _ => return Outcome::Rejected("setup".into()),
+        }
+        let mut last = Outcome::Rejected("nothing ran".into());
+        // two programs parsed and run one after the other by the same embedder
+        for _ in 0..2 {
+            last = match run::parse_guarded(&interp, &program) {
+                Ok(Ok(code)) => run::exec_unscoped_guarded(&code, &mut interp),
+                Ok(Err(k)) => Outcome::Rejected(k),
+                Err(o) => o,
+            };
+        }
+        last
+    };
+    let want = |t: usize| format!("(5, {}, {}, 6)", t * 100 + 1, 8 + t * 100);
+    for rep in 0..reps {
+        let barrier = Arc::new(Barrier::new(threads));
+        let results: Vec<Outcome> = std::thread::scope(|scope| {
+            let handles: Vec<_> = (0..threads)
+                .map(|t| {
+                    let barrier = barrier.clone();
+                    let run_one = &run_one;
+                    scope.spawn(move || {
+                        barrier.wait();
+                        run_one(t + 1)
+                    })
+                })
+                .collect();
+            handles.into_iter().map(|h| h.join().expect("worker")).collect()
+        });
+        stats.evals(threads as u64 * 2);
+        stats.nontrivial(&format!("{case}#{rep}"));
+        stats.label("isolated-import: embedders importing one file at once");
+        for (t, o) in results.iter().enumerate() {
+            let shown = match o {
+                Outcome::Value(v) => canon::canon(v).show(),
+                o => o.short(),
+            };
+            if shown != want(t + 1) {
+                return fail(
+                    "C16:isolated-import:result",
+                    format!("embedder {} (own cell `hits`, base = {}) ran `{program}` twice; the second run gave {shown}, expected {}", t + 1, (t + 1) * 100, want(t + 1)),
+                );
+            }
+        }
+    }
+    stats.sample(1, || json!({"workload": case, "program": program}));
+    Verdict::Pass
 }
 
 const ISOLATED_CODE: [&str; 6] = [
@@ -1186,6 +1257,7 @@ pub fn run(session: &Session) -> i32 {
     for which in 0..isolated_code_programs().len() {
         cases.push(json!({"kind": "isolated-code", "which": which, "threads": 8, "reps": if which < ISOLATED_CODE.len() { session.tier.of(6, 40) } else { session.tier.of(2, 10) }}));
     }
+    cases.push(json!({"kind": "isolated-import", "threads": 6, "reps": session.tier.of(3, 20)}));
     cases.push(json!({"kind": "show", "writers": 4, "readers": 4, "iters": session.tier.of(3000, 30000), "reps": session.tier.of(3, 10)}));
     cases.push(json!({"kind": "shared-iterator", "threads": 8, "n": session.tier.of(4000, 30000), "reps": session.tier.of(4, 20)}));
     for which in 0..CROSS.len() {
